@@ -551,6 +551,38 @@ def _do(world, st, op):
         st.trees[tname] = t
         return {'parsed_from': src}
 
+    if name == 'clone_tree':
+        # a whole tree copied (copy.deepcopy, copy.copy of every level is
+        # not offered by the library; a pickle round trip): an equal tree
+        # that shares nothing with the original
+        src = st.trees.get(op.get('from'))
+
+        if src is None:
+            return {'outcome': 'skip', 'skipped': 'no-source'}
+
+        if op.get('how') == 'pickle':
+            import pickle
+            t = pickle.loads(pickle.dumps(
+                src, protocol=op.get('protocol', pickle.HIGHEST_PROTOCOL)))
+        else:
+            t = copy.deepcopy(src)
+
+        if snap_tree(t) != snap_tree(src):
+            world.violate('C18.copy-differs', 'tree:' + str(
+                op.get('how', 'deepcopy')), {'op': op})
+
+        try:
+            same = t.to_bytes() == src.to_bytes()
+        except Exception:
+            same = True         # unserialisable trees stay unserialisable
+
+        if not same:
+            world.violate('C18.copy-differs', 'tree-bytes:' + str(
+                op.get('how', 'deepcopy')), {'op': op})
+
+        st.trees[tname] = t
+        return {'cloned_tree': True}
+
     tree = st.trees.get(tname)
 
     if tree is None:
